@@ -167,9 +167,14 @@ def concrete_steps_to_trace(steps):
         else:
             diff, lid = store_diff(pre, post)
             reset = False
+        q = st.get("q") or {"none": 0}
+        if "final" in q and "gens" in q["final"]:
+            q = dict(q)
+            q["final"] = dict(q["final"])
+            q["final"]["gens"] = [conv_gen(g) for g in q["final"]["gens"]]
         rec = {"w": write_order(st["w"]), "d": diff, "lastId": lid, "reset": reset,
                "nT": len(post[1]), "nL": len(post[2]), "obs": conv_obs(st["obs"]),
-               "q": st.get("q") or {"none": 0}}
+               "q": q}
         if op == "Init":
             rec.update({"op": "Init", "a": {"none": 0}, "exc": "", "pages": 0, "created": []})
         else:
@@ -200,6 +205,8 @@ def conv_args(name, a):
         a["rules"] = conv_rules(a["rules"])
     if name == "IndexBatchCrawl":
         a["data"] = [{"src": s, "tgts": list(t)} for s, t in a["data"]]
+    if name == "CoopBegin":
+        a["gens"] = [conv_gen(g) for g in a["gens"]]
     if name in ("Paginate", "PagLinks"):
         from impl import token_decode
         tok = a.pop("token")
@@ -213,10 +220,23 @@ def conv_args(name, a):
     return a
 
 
+def conv_gen(g):
+    g = dict(g)
+    if g["kind"] == "crawl":
+        g["data"] = [{"src": s, "tgts": list(t)} for s, t in g["data"]]
+    if "rule" in g:
+        g["rule"] = norm_rule(g["rule"])
+    if g["kind"] in ("qpages", "qnet"):
+        g = {"kind": "query"}
+    return g
+
+
 def conv_obs(o):
     return {
         "pages": [{"l": l, "cr": c} for l, c in o["pages"]],
-        "npages": o["npages"], "ncrawled": o["ncrawled"], "nlinks": o["nlinks"],
+        "npages": o["npages"], "ncrawled": o["ncrawled"],
+        # count_links() is (blocks - 1) / 2: half-integral while a generator request is in progress
+        "nlinks": int(o["nlinks"]) if o["nlinks"] == int(o["nlinks"]) else -1,
         "we": [{"l": l, "id": w} for l, w in o["we"]],
         "outs": [{"s": s, "t": t, "w": w} for s, t, w in o["outs"]],
         "ins": [{"s": s, "t": t, "w": w} for s, t, w in o["ins"]],
